@@ -7,7 +7,7 @@
 
 PROPS = {
     'C01': {
-        'units': ['engine'],
+        'units': ['engine', 'engine_build'],
         'design_ref': 'DESIGN.md section 4, C01 and appendix A (lemma L1)',
         'claim': 'the step contracts of lemma L1 on the real engine functions: scanRule decides never-built / signature / validity in that order and '
                  'declares a rule up to date without a scan only if nothing is recorded; demandRule stamps builtAt with the current epoch exactly '
@@ -23,8 +23,26 @@ PROPS = {
                  'every call site under contract); a task is created only from NeedsToRun and the rule leaves that state; an unchanged value keeps computedAt',
         'not_decided': ['the shadow-epoch history argument of the property (every step of it is proved, the induction is lemma L1)', 'breakCycle (Forced)'],
     },
+    'C04': {
+        'units': ['engine_build'],
+        'design_ref': 'DESIGN.md section 4, C04',
+        'claim': 'every commit point of a build is consistent: buildStarted precedes and buildComplete follows all database work of a build, the epoch '
+                 'is advanced before any task runs, and before the transaction commits the new epoch has been handed to the database in the same '
+                 'transaction (so the stored epoch is never smaller than a stored result\'s epochs); nothing is left open',
+        'not_decided': ['the enumeration of kill points, journal recovery and fsync (SQLite atomic commit is assumed)',
+                        'setRuleResult / key table contents (U-db units)', 'that continued builds return clean results (lemma L1)'],
+    },
+    'C05': {
+        'units': ['engine', 'engine_build'],
+        'design_ref': 'DESIGN.md section 4, C05',
+        'claim': 'build() returns the empty value whenever the task loop failed, the build was already cancelled or the database could not be locked; '
+                 'the execution queue is released under its mutex on every path, the engine is never left busy, resetForBuild clears the flag under '
+                 'the mutex; setCancelled resets only the state; a failed or cancelled build still hands its epoch to the database before commit',
+        'not_decided': ['cancelRemainingTasks (drain loop) and the "cancelled rule is re-run" clause (candidate finding F13, not under contract yet)',
+                        'delivery from foreign threads, hangs (liveness of the drain)', 'the BuildSystemFrontend / lane queue path'],
+    },
     'C06': {
-        'units': ['engine'],
+        'units': ['engine', 'engine_build'],
         'design_ref': 'DESIGN.md section 4, C06',
         'claim': 'task protocol automaton on the Task stubs (start once, prior value once after start and only for the same rule definition), ready queue '
                  'receives a task exactly when its wait count reaches zero, finished tasks are queued under finishedTaskInfosMutex and the loop is notified '
